@@ -68,9 +68,7 @@ func libCall(c LibCase) {
 		p.ParsePubkey(in)
 	case "XY.ParseXOnlyPubkey":
 		var p secp256k1.XY
-		if len(in) >= 32 {
-			p.ParseXOnlyPubkey(in)
-		}
+		p.ParseXOnlyPubkey(in) // any length: the function checks it itself
 	case "NewSignature":
 		btc.NewSignature(in)
 	case "NewPublicKey":
@@ -92,9 +90,9 @@ func libCall(c LibCase) {
 	case "IsWitnessProgram":
 		btc.IsWitnessProgram(in)
 	case "CheckPayToContract":
-		if len(in) >= 32 && len(a) >= 32 {
-			btc.CheckPayToContract(in[:32], a[:32], make([]byte, 32), len(in)%2 == 1)
-		}
+		// any lengths (no harness-side guard): the only caller in the tree (script/witness.go) passes 32-byte
+		// slices, the function must not rely on that
+		btc.CheckPayToContract(in, a, make([]byte, 32), len(in)%2 == 1)
 	}
 }
 
